@@ -118,6 +118,7 @@ func C15(run *core.Run) {
 		run.AddSample(map[string]interface{}{"peer_behaviour": b.Steps})
 	}
 	wireCheck(run)
+	syncSessCheck(run)
 	run.Finish()
 }
 
